@@ -134,13 +134,19 @@ def domain(Y, Dm, C):
   return cs
 
 
-def run_metric(run, name, ctor, kind, info, N, C, T, partitions, timeout):
+def run_metric(run, name, ctor, kind, info, N, C, T, partitions, timeout, pad_ninf=False):
   metric = ctor()
   P, Y, Dm, Mk = sym_tables(kind, N, C, T)
-  sym = (P, Y, Dm, Mk)
   assum = domain(Y, Dm, C)
+  if pad_ninf:
+    # the last row is a PADDING row (mask bit False) whose content makes its own statistic non-finite: score -inf at its
+    # target class (loss +inf).  Masked rows must be replaced by the zero statistic, not multiplied away.
+    P[N - 1][..., 1] = sj.NINF
+    Mk[N - 1] = False
+    assum = assum + [t == 1 for t in np.asarray(Y[N - 1]).reshape(-1)]
+  sym = (P, Y, Dm, Mk)
   for partition, mode in partitions:
-    nm = '%s|%s|%s' % (name, mode, partition)
+    nm = '%s%s|%s|%s' % (name, '[pad-row:-inf@target]' if pad_ninf else '', mode, partition)
     h = jh.Harness(run, nm, timeout)
     ctx = sj.Ctx()
     rows = [i for idxs in partition for i in idxs]
@@ -240,6 +246,9 @@ def run_merge_laws(run, timeout):
 
 def replay(data):
   fedjax, models, metrics, cds = _fx()
+  if data.get('kind') == 'jit_history':
+    msgs, _ = jit_history_probe(data['C'], data['T'], data['tier'])
+    return bool(msgs), '; '.join(msgs[:2]) or 'no history dependence'
   if data.get('kind') == 'law':
     return True, 'merge law counterexample (symbolic stats): ' + data['model']
   from .c14 import find_metric
@@ -265,7 +274,7 @@ def replay(data):
       o[idx] = conv(x[idx])
     return o
   rows = [i for idxs in partition for i in idxs]
-  ref = reference_result(name, info, kind, obj(P, lambda v: Fraction(float(v))), obj(Y, int), obj(D, int), obj(Mk, bool),
+  ref = reference_result(name, info, kind, obj(P, lambda v: Fraction(float(v)) if np.isfinite(v) else (sj.NINF if v < 0 else sj.PINF)), obj(Y, int), obj(D, int), obj(Mk, bool),
                          C, T, ctx, rows, use_mask=(mode not in ('merge_fold', 'evaluate_model(no mask feature)')))
   msgs = []
   if data.get('empty'):
@@ -280,6 +289,55 @@ def replay(data):
     if (math.isnan(g) != math.isnan(e)) or (not math.isnan(g) and abs(g - e) > 1e-6 * (1 + abs(e))):
       msgs.append('result%s = %r, merging single-example statistics gives %r' % (list(idx), g, e))
   return bool(msgs), '; '.join(msgs[:3]) or 'agrees'
+
+
+def jit_history_probe(C, T, tier):
+  """Auxiliary CONCRETE clause (the jit trace cache is outside the jaxpr): the solver-checked result of a metric / model
+  is what the un-jitted code computes; with jit ON, evaluating metric B after a sibling A of the same class (same batch
+  shapes), or a model after a sibling built with .replace(eval_metrics=...), must give that same result, i.e. objects that
+  compute different things never share a static-argument identity."""
+  fedjax, models, metrics, cds = _fx()
+  N = 8
+  rng = np.random.RandomState(5)
+  msgs = []
+  groups = {}
+  for name, ctor, kind, info in mc.metric_grid(C, T, tier):
+    if info.get('k', 1) < 1 or info.get('ninf_at'):
+      continue
+    groups.setdefault((name.split('(')[0] if not name.startswith('PerDomain') else name, kind), []).append((name, ctor))
+  data = {}
+  for kind in ('cls', 'seq'):
+    shp = (N, C) if kind == 'cls' else (N, T, C)
+    data[kind] = (jnp.asarray(rng.randn(*shp), jnp.float32), jnp.asarray(rng.randint(0, C, size=shp[:-1]), jnp.int32),
+                  jnp.asarray(rng.randint(0, 2, size=(N,)), jnp.int32), jnp.asarray(rng.rand(N) < 0.7))
+  npairs = 0
+  for (cls, kind), members in sorted(groups.items()):
+    P, Y, Dm, Mk = data[kind]
+    batch = {'y': Y, 'domain_id': Dm}
+    expected = {}
+    with jax.disable_jit():
+      for name, ctor in members:
+        expected[name] = np.asarray(metrics.evaluate_batch(ctor(), batch, P, Mk).result())
+    for order in (members, members[::-1]):
+      for name, ctor in order:
+        got = np.asarray(metrics.evaluate_batch(ctor(), batch, P, Mk).result())
+        npairs += 1
+        if got.shape != expected[name].shape or not np.allclose(got, expected[name], rtol=1e-5, atol=1e-6, equal_nan=True):
+          msgs.append('%s evaluated after a sibling of its class gives %s, alone (no jit cache) %s' % (name, got.tolist(), expected[name].tolist()))
+    # models whose eval_metrics differ only in configuration
+    if len(members) >= 2:
+      idx = jnp.arange(N, dtype=jnp.int32)
+      bs = [{'idx': idx[:5], 'y': Y[:5], 'domain_id': Dm[:5]}, {'idx': idx[5:], 'y': Y[5:], 'domain_id': Dm[5:]}]
+      base = make_model(members[0][1]())
+      sib = base.replace(eval_metrics={'m': members[-1][1]()})
+      with jax.disable_jit():
+        want = np.asarray(models.evaluate_model(sib, {'P': P}, bs)['m'])
+      models.evaluate_model(base, {'P': P}, bs)
+      got = np.asarray(models.evaluate_model(sib, {'P': P}, bs)['m'])
+      npairs += 1
+      if got.shape != want.shape or not np.allclose(got, want, rtol=1e-5, atol=1e-6, equal_nan=True):
+        msgs.append('model with %s evaluated after its sibling with %s gives %s, alone %s' % (members[-1][0], members[0][0], got.tolist(), want.tolist()))
+  return msgs, npairs
 
 
 def check(run):
@@ -324,4 +382,17 @@ def check(run):
   run.witness('translator-validation', 'translation', ok, 'worst %.2g' % worst)
   for name, ctor, kind, info in grid:
     run_metric(run, name, ctor, kind, info, N, C, T, parts, timeout)
+  # padding rows with non-finite statistics (loss metrics): replaced by zero(), never multiplied by a 0 weight
+  pad_parts = [([[0, 1], [2]], 'evaluate_model'), ([[1, 2, 0]], 'evaluate_batch')] if N == 3 else \
+      [([[0, 1], [2, 3]], 'evaluate_model'), ([[3, 1, 2, 0]], 'evaluate_batch'), ([[0], [1, 2, 3]], 'ModelEvaluator')]
+  done = set()
+  for name, ctor, kind, info in grid:
+    if 'CrossEntropy' in name and name not in done and not info.get('ninf_at'):
+      done.add(name)
+      run_metric(run, name, ctor, kind, info, N, C, T, pad_parts, timeout, pad_ninf=True)
   run_merge_laws(run, timeout)
+  msgs, npairs = jit_history_probe(C, T, tier)
+  run.assumptions.append('history clause (jit trace cache shared between sibling metrics/models): auxiliary concrete run, %d evaluations' % npairs)
+  run.ob('aux-concrete:jit-history(sibling metrics / models)', 'sat' if msgs else 'unsat', detail=msgs[:3] if msgs else None, nontrivial=False)
+  if msgs:
+    run.violation('jit-history', 'evaluation depends on what was evaluated before: %s' % msgs[0], {'kind': 'jit_history', 'C': C, 'T': T, 'tier': tier}, True)
